@@ -243,6 +243,94 @@ pub fn check_schedule(run: &mut Run, s: &Schedule, mode: &str) {
     }
 }
 
+/// the real `FollowFileExecutor` (what `sqlgrep --follow [--head]` runs) over a growing file: the file holds `initial`
+/// at start-up, the retry hook appends one chunk per call and then ends the run; stdout is captured
+fn exec_follow(query: &str, head: bool, initial: &[u8], chunks: &[Vec<u8>]) -> (String, Vec<String>) {
+    use std::sync::atomic::AtomicBool;
+    use std::sync::Arc;
+    use sqlgrep::execution::execution_engine::ExecutionEngine;
+    use sqlgrep::executor::{DisplayOptions, FollowFileExecutor, OutputFormat};
+    const DEF: &str = "CREATE TABLE t(line = '(.*)', line[1] => x TEXT);";
+    let prepared = match crate::engine_run::prepare(DEF, query) { Ok(p) => p, Err(e) => return (format!("rejected {}", e), Vec::new()) };
+    let path = tmp_file(initial);
+    {
+        let path = path.clone();
+        let chunks = chunks.to_vec();
+        let calls = std::cell::Cell::new(0usize);
+        verif_hooks::set_follow_retry_hook(Some(Box::new(move || {
+            let n = calls.get();
+            calls.set(n + 1);
+            if n < chunks.len() {
+                let mut f = OpenOptions::new().append(true).open(&path).unwrap();
+                f.write_all(&chunks[n]).unwrap();
+                true
+            } else {
+                false
+            }
+        })));
+    }
+    let mut status = String::new();
+    let out = crate::c19::capture_stdout(|| {
+        let res = catch(|| -> Result<(), String> {
+            let file = File::open(&path).map_err(|_| "err:FailOpenFile".to_owned())?;
+            let display = DisplayOptions { output_format: OutputFormat::Text, single_result: false, print_result: true };
+            let engine = ExecutionEngine::new(&prepared.tables, &prepared.statement);
+            let mut executor = FollowFileExecutor::new(Arc::new(AtomicBool::new(true)), file, head, display, engine).map_err(|_| "err:Io".to_owned())?;
+            executor.execute().map_err(|e| format!("err:{}", crate::engine_run::exec_err_kind(&e)))
+        });
+        status = match res {
+            Caught::Done(Ok(())) => "ok".to_owned(),
+            Caught::Done(Err(e)) => e,
+            Caught::Panic(m) => format!("panic {}", m),
+        };
+    });
+    verif_hooks::set_follow_retry_hook(None);
+    let _ = std::fs::remove_file(path);
+    let text = String::from_utf8_lossy(&out).replace("\x1B[2J\x1B[1;1H", "");
+    let mut printed: Vec<String> = text.split('\n').map(|s| s.to_owned()).collect();
+    if printed.last().map(|l| l.is_empty()).unwrap_or(false) { printed.pop(); }
+    (status, printed)
+}
+
+/// executor level: what the query *sees* in follow mode are exactly the complete lines appended after the start offset
+fn check_executor(run: &mut Run, rng: &mut Rng) {
+    let head = rng.chance(1, 2);
+    // no CR / empty-line atoms here: the printed text is split at line feeds again
+    const XATOMS: [&str; 8] = ["a", "b", "xyz", " ", "\u{e9}", "\u{20ac}", "\n", "q\n"];
+    let gen = |rng: &mut Rng, n: usize| -> Vec<u8> { let mut o = Vec::new(); for _ in 0..rng.below(n + 1) { o.extend_from_slice(rng.pick(&XATOMS).as_bytes()); } o };
+    let mut initial = gen(rng, 8);
+    if rng.chance(1, 2) && !initial.is_empty() && *initial.last().unwrap() == b'\n' { initial.extend_from_slice(b"tail"); }
+    let appended = gen(rng, 10);
+    let pts = cut_points(rng, &appended, CutMode::Random);
+    let chunks = cut(&appended, &pts);
+    let mut whole = initial.clone();
+    whole.extend_from_slice(&appended);
+    let start = if head { 0 } else { initial.len() };
+    let (expected, _tail) = complete_lines(&whole[start..]);
+    // a lone `input` column prints the line in its TEXT rendering (quoted): the code's meaning of "just the line"
+    let expected: Vec<String> = expected.iter().map(|l| format!("'{}'", String::from_utf8_lossy(l))).collect();
+    let aggregate = rng.chance(1, 2);
+    let query = if aggregate { "SELECT COUNT(*) AS n FROM t" } else { "SELECT input FROM t" };
+    let (status, printed) = exec_follow(query, head, &initial, &chunks);
+    run.oracle_checks += 1;
+    run.count(if aggregate { "executor:aggregate" } else { "executor:select" });
+    let desc = format!("FollowFileExecutor head={} query={} initial={} appends=({})", head, query, hex(&initial), chunks.iter().map(|c| hex(c)).collect::<Vec<_>>().join(" "));
+    if status != "ok" {
+        run.fail(desc, "follow-executor-failed", format!("status {}", status));
+        return;
+    }
+    // a line that contains only spaces is still a row (x = ' '), the empty line too (x = '')
+    if aggregate {
+        let last = printed.iter().rev().find(|l| !l.is_empty()).cloned();
+        let want = if expected.is_empty() { None } else { Some(format!("n: {}", expected.len())) };
+        if last != want {
+            run.fail(desc, "follow-executor-line-count", format!("the last table shown is {:?} but {} complete lines were appended after the start offset", last, expected.len()));
+        }
+    } else if printed != expected {
+        run.fail(desc, "follow-executor-lines-differ", format!("the query saw {:?} but the complete lines are {:?}", printed, expected));
+    }
+}
+
 fn make_schedule(rng: &mut Rng, head: bool, cap: usize, initial: Vec<u8>, appended: &[u8], mode: CutMode) -> Schedule {
     let pts = cut_points(rng, appended, mode);
     let mut chunks = cut(appended, &pts);
@@ -349,6 +437,9 @@ pub fn run(p: &Params) -> Run {
         let s = Schedule { head, cap, initial, chunks: vec![burst, completion, extra], eager };
         check_schedule(&mut run, &s, "burst");
     }
+
+    // executor level (`FollowFileExecutor`, with and without --head, SELECT and aggregate), oracle only
+    for _ in 0..p.n(300, 4_000) { check_executor(&mut run, &mut rng); }
 
     // exhaustive small scope (thorough): all contents <= 5 symbols over {a, \n, \r, é} x all cut sets x caps <= 3
     if p.tier_thorough {
